@@ -268,13 +268,9 @@ theorem asCoded_cross_family (rules : List Rule) (k : Key) (x : IP)
   · unfold isCatchAllWith at hc
     simp only [Bool.and_eq_true] at hc
     obtain ⟨hscope, _⟩ := hc
-    have hcaips : asCodedClauses.caIPs r k = caIPsF13 r k := rfl
+    have hcaips : asCodedClauses.caIPs r k = catchAllIPs r k := rfl
     rw [hcaips] at hxc
-    unfold caIPsF13 at hxc
-    by_cases hst : starved r = true
-    · simp [hst] at hxc
-    · simp only [hst] at hxc
-      unfold catchAllIPs at hxc
+    · unfold catchAllIPs at hxc
       cases hl : r.loc with
       | ok l => rw [hl] at hxc; simp at hxc
       | bad => rw [hl] at hxc; simp at hxc
